@@ -16,10 +16,31 @@ pub const PROFILES: &[&str] = &[
     "marks",
     "astral",
     "mixed",
+    "wide",
 ];
+
+/// ~700 distinct letters (Latin Extended, Greek, Cyrillic, Armenian ranges): a process that works through this
+/// profile meets far more distinct characters than any bounded per-process table is likely to hold.
+fn wide_alphabet() -> &'static Vec<&'static str> {
+    static WIDE: std::sync::OnceLock<Vec<&'static str>> = std::sync::OnceLock::new();
+    WIDE.get_or_init(|| {
+        let mut v: Vec<&'static str> = vec![];
+        for range in [0x0100u32..0x0180, 0x0391..0x03A2, 0x03B1..0x03CA, 0x0410..0x0450, 0x0531..0x0557, 0x0561..0x0587, 0x1E00..0x1F00] {
+            for cp in range {
+                if let Some(c) = char::from_u32(cp) {
+                    if c.is_alphabetic() {
+                        v.push(Box::leak(c.to_string().into_boxed_str()));
+                    }
+                }
+            }
+        }
+        v
+    })
+}
 
 fn alphabet(profile: usize) -> Vec<&'static str> {
     match profile {
+        9 => wide_alphabet().clone(),
         0 => vec!["a", "b"],
         1 => vec!["a", "b", "c"],
         2 => vec!["a", "b", "1", "2", "x", "y", "3"],
@@ -72,12 +93,28 @@ pub fn gen_set(rng: &mut Rng, profile: usize, max_size: u64) -> BTreeSet<String>
     let alpha = alphabet(profile);
     let mut set = BTreeSet::new();
     let size = rng.range(1, max_size.max(1));
+    if profile == 9 && rng.chance(1, 2) {
+        // single letters from the wide alphabet: the result is one character class with many members
+        // a run of neighbouring code points (printed as a range) plus scattered ones
+        let k = rng.range(3, 6) as usize;
+        let start = rng.below((alpha.len() - k) as u64) as usize;
+        for a in &alpha[start..start + k] {
+            set.insert(a.to_string());
+        }
+        let extra = rng.below(6);
+        for _ in 0..extra {
+            set.insert(rng.pick(&alpha).to_string());
+        }
+        return set;
+    }
     let shape = if (profile == 4 || profile == 8) && rng.chance(1, 3) {
         6
     } else if rng.chance(1, 30) {
         7
     } else if rng.chance(1, 120) {
         8
+    } else if rng.chance(1, 150) {
+        9
     } else {
         rng.below(6)
     };
@@ -85,12 +122,25 @@ pub fn gen_set(rng: &mut Rng, profile: usize, max_size: u64) -> BTreeSet<String>
         // many: far more test cases than the other shapes (size-triggered code paths), kept cheap by a
         // tiny alphabet and short strings
         7 => {
-            let n = *rng.pick(&[24u64, 40, 65, 100, 130]);
-            let small: Vec<&str> = alpha.iter().copied().take(3).collect();
+            let n = *rng.pick(&[24u64, 40, 65, 100, 130, 24, 40, 65, 100, 130, 300, 600]);
+            let small: Vec<&str> = alpha.iter().copied().take(if n > 200 { 4 } else { 3 }).collect();
             let mut tries = 0;
             while (set.len() as u64) < n && tries < n * 4 {
                 tries += 1;
                 set.insert(word(rng, &small, 1, 5));
+            }
+        }
+        // bulk: a few hundred random six-letter words: a large automaton (hundreds of minimised states), so that
+        // builds overlapping in time hold large intermediate structures at once
+        9 => {
+            const LETTERS: &[&str] = &[
+                "a", "b", "c", "d", "e", "f", "g", "h", "i", "j", "k", "l", "m", "n", "o", "p", "q", "r", "s", "t", "u", "v", "w", "x", "y", "z",
+            ];
+            let n = *rng.pick(&[120u64, 200, 300]);
+            let mut tries = 0;
+            while (set.len() as u64) < n && tries < n * 3 {
+                tries += 1;
+                set.insert(word(rng, LETTERS, 6, 6));
             }
         }
         // long: one long test case (length-triggered code paths) next to a few short ones
